@@ -54,6 +54,18 @@ theorem Inv_hangup (s : State) (c : Conn) (hI : Inv s) (hnb : (s.conns c).blocke
     have hne : c' ≠ c := fun e => hc' (e ▸ hnb)
     simp [setConn, hne]
 
+/-- Any update of an unblocked connection that leaves it unblocked (`kill`, `hangupDirty`). -/
+theorem Inv_unblocked_upd (s : State) (c : Conn) (f : ConnSt → ConnSt) (hI : Inv s) (hnb : (s.conns c).blocked = none)
+    (hf : (f (s.conns c)).blocked = none) : Inv (setConn s c f) := by
+  refine hI.same (fun _ _ h => h) (fun _ h => .inl h) (List.Perm.refl _) ?_ ?_ hI.counts hI.lost
+  · intro c'
+    simp only [setConn]; split
+    · next h => subst h; rw [hf, hnb]
+    · rfl
+  · intro c' hc'
+    have hne : c' ≠ c := fun e => hc' (e ▸ hnb)
+    simp [setConn, hne]
+
 theorem Inv_reap (s : State) (c : Conn) (hI : Inv s) (hnb : (s.conns c).blocked = none) :
     Inv { (setConn s c fun cs => { cs with gone := true, blocked := none }) with
           registry := (setConn s c fun cs => { cs with gone := true, blocked := none }).registry.filter fun x => x.2.conn != c } := by
@@ -110,6 +122,18 @@ theorem Inv_step (q : Quirks) (hx : q.execAtomic = false) (s : State) (e : Event
           have := (hI.alive c (by rw [hb]; simp)).2.2
           rw [hpc] at this; cases this
       exact Inv_reap s c hI hnb
+    · exact hI
+  | kill c =>
+    simp only [step]
+    simp only [eventOk, Option.isNone_iff_eq_none] at hok
+    split
+    · exact Inv_unblocked_upd s c _ hI hok rfl
+    · exact hI
+  | hangupDirty c =>
+    simp only [step]
+    simp only [eventOk, Option.isNone_iff_eq_none] at hok
+    split
+    · exact Inv_unblocked_upd s c _ hI hok hok
     · exact hI
 
 theorem Inv_runFrom (q : Quirks) (hx : q.execAtomic = false) (evs : List Event) :
